@@ -275,13 +275,17 @@ DomIp    == [origin |-> "o.ip", rpid |-> "absent", rp |-> "none", dom |-> "Origi
 DomAnd1    == [origin |-> "o.and.r1", rpid |-> "absent", rp |-> "r1", dom |-> "ok"]
 DomAnd1w   == [origin |-> "o.and.r1w", rpid |-> "r1", rp |-> "r1", dom |-> "ok"]
 DomAndEvil == [origin |-> "o.and.evil", rpid |-> "r1", rp |-> "r1", dom |-> "OriginRpMissmatch"]
-DomsOk  == {DomOk1, DomOk1p, DomHost, DomOk2, DomAnd1, DomAnd1w}
+\* an internationalised host (in punycode and as typed); r3 is its punycode name
+DomIdn     == [origin |-> "o.idn", rpid |-> "absent", rp |-> "r3", dom |-> "ok"]
+DomIdnU    == [origin |-> "o.idnu", rpid |-> "r3", rp |-> "r3", dom |-> "ok"]
+DomsOk  == {DomOk1, DomOk1p, DomHost, DomOk2, DomAnd1, DomAnd1w, DomIdn, DomIdnU}
 DomsBad == {DomEvil, DomHttp, DomSufx, DomOther, DomLocal, DomIp, DomAndEvil}
 
 BaseCReq ==
     [BaseReq EXCEPT !.rp = "r1"] @@
     [origin |-> "o.r1w", rpid |-> "r1", dom |-> "ok", chal |-> "c32", authSel |-> TRUE, residentKey |-> "absent",
-     requireRk |-> FALSE, uvreq |-> "preferred", credProps |-> "absent", cdmode |-> "default", cprf |-> NoCprf]
+     requireRk |-> FALSE, uvreq |-> "preferred", credProps |-> "absent", cdmode |-> "default", cprf |-> NoCprf,
+     att |-> "absent"]      \* attestation conveyance preference (and formats): no effect on the outcome
 WithDom(r, d) == [r EXCEPT !.origin = d.origin, !.rpid = d.rpid, !.rp = d.rp, !.dom = d.dom]
 \* the CTAP-shaped prf member of a client request: what a well-formed request means
 WithCprf(r, c) == [r EXCEPT !.cprf = c,
@@ -369,6 +373,15 @@ C09c_Cers ==
         c \in C09c_AuthPrfs, u \in {"required", "discouraged"}, a \in { <<"c1">>, <<"c2", "c1">>, <<>> } }
     \cup
     { << Cer("client", "ga", [WithCprf(BaseCReq, c) EXCEPT !.allowGiven = FALSE], BaseEnv) >> : c \in C09c_AuthPrfs }
+
+\* C07 through the client: every attestation preference, faults at the save, cancellation at each gate
+C07c_Cers ==
+    { << Cer("client", "mc", [BaseCReq EXCEPT !.user = "u3", !.att = a, !.residentKey = "required", !.credProps = "true"],
+             [BaseEnv EXCEPT !.faults = f, !.cancelAt = k]) >> :
+        a \in {"absent", "none", "indirect", "direct", "enterprise"}, f \in {<<0, 0, 0>>, <<40, 0, 0>>}, k \in -1..7 }
+    \cup
+    { << Cer("client", "ga", [BaseCReq EXCEPT !.allow = a, !.allowGiven = a # <<>>], [BaseEnv EXCEPT !.faults = f, !.cancelAt = k]) >> :
+        a \in {<<>>, <<"c1">>}, f \in {<<0, 0, 0>>, <<0, 40, 0>>, <<1, 0, 0>>}, k \in -1..5 }
 
 \* descriptors whose credential type the library does not know, through the client: the allow / exclude list means
 \* the same (a list that matches nothing does not fall back to "any credential")
